@@ -279,6 +279,39 @@ def check_crate(fx, rep, crate, tag):
                           'the message cursor is reset together with the read cursor',
                           'the message cursor is set to 0 while the read cursor is not reset on the same path: `message cursor == 0` then no longer means "no complete frame is buffered", '
                           'and the next receive waits for the transport although complete frames are pending (or treats a partial frame as empty)')
+                # ... and only behind the sentinel test: "the byte after this frame's terminator is 0" is the one fact that says nothing else is buffered.
+                # A reset on any other condition (a frame that failed to decode, say) throws away the frames that were read along with this one
+                sent_edges = set()
+                for sw_ in range(wb.n):
+                    if wb.is_cleanup(sw_) or wb.term(sw_)['k'] != 'switch':
+                        continue
+                    inf_ = wb.switch_info(sw_)
+                    if not inf_ or inf_.get('kind') != 'cmp' or inf_['op'] not in ('Eq', 'Ne'):
+                        continue
+                    sides = [inf_['a'], inf_['b']]
+                    ops_ = [inf_.get('a_op') or {}, inf_.get('b_op') or {}]
+                    zero_side = [k_ for k_ in (0, 1) if sides[k_].get('kind') == 'const' and sides[k_].get('val') == 0]
+                    if not zero_side:
+                        continue
+                    oth = ops_[1 - zero_side[0]]
+                    oty = (mir.op_place(oth) or {}).get('ty') or oth.get('ty') or ''
+                    if oty != 'u8':
+                        continue
+                    sent_edges.add((sw_, inf_['true'] if inf_['op'] == 'Eq' else inf_['false']))
+                if sent_edges:
+                    seen_, work_ = set(), [0]
+                    while work_:
+                        x_ = work_.pop()
+                        if x_ in seen_:
+                            continue
+                        seen_.add(x_)
+                        for s_ in wb.succ(x_):
+                            if (x_, s_) not in sent_edges:
+                                work_.append(s_)
+                    rep.check(b not in seen_, 'R01.6', '%s|reset-only-behind-the-sentinel-test|%d|%s' % (wb.path, n6, tag), C.where(wb, b, i),
+                              'the cursors are reset only on the edge where the byte after the terminator is 0 (nothing else is buffered)',
+                              'the message cursor can be reset to 0 without the sentinel test having said that no further frame is buffered: complete frames that arrived in the same '
+                              'read are thrown away (e.g. together with a frame that failed to decode), so later receives return other frames than were sent, or wait for new bytes')
         if not n6:
             rep.bad('R01.6', 'anchor|%s' % tag, '-', 'no reset of the message cursor found')
         # (a) guard on message cursor (any spelling of `message cursor == 0`)
